@@ -19,6 +19,7 @@ const (
 	whatTaskEarly  = "a call returned before the background task of its buffer completed"
 	whatTaskErr    = "a background task's error was dropped although the data was fine"
 	whatProgData   = "a buffer delivered bytes that differ from the blob"
+	whatPeer       = "the owner of another handle of a stream clone failed although the blob and all tasks were fine"
 	whatProgChunk  = "a chunk reader delivered a chunk larger than asked for"
 )
 
@@ -36,6 +37,20 @@ func (c *progCase) taskUnderClone() bool {
 	return false
 }
 
+// peersShouldSucceed: the source delivers the blob and no task fails, so whatever the main
+// consumer does, everybody else reading the blob must get it.
+func (c *progCase) peersShouldSucceed() bool {
+	if b := c.toks[0]; b != "b.bytes" && b != "b.rat" && !strings.HasSuffix(b, ".g") {
+		return false
+	}
+	for _, t := range c.toks[1:] {
+		if (strings.HasPrefix(t, "wt.") || strings.HasPrefix(t, "rp.")) && !strings.HasSuffix(t, ".0") {
+			return false
+		}
+	}
+	return true
+}
+
 // syncTaskFailed: a task that ran in the foreground (inside WithTask) returned an error.
 func (c *progCase) syncTaskFailed(p *progRun) bool {
 	for _, t := range p.tasks {
@@ -49,7 +64,7 @@ func (c *progCase) syncTaskFailed(p *progRun) bool {
 func (c *progCase) readsAll() bool {
 	m := c.method
 	switch m[0] {
-	case "iw", "proto", "bs", "ra":
+	case "iw", "proto", "bs", "ra", "iwf":
 		return true
 	case "cr", "rdr":
 		return m[len(m)-1] == "all"
@@ -160,6 +175,17 @@ func (c *progCase) oracle(p *progRun) (whats []string, detail string) {
 			w = whatRatLeak
 		}
 		add(w, fmt.Sprintf("Close was called %d times", p.src.closes.Load()))
+	}
+	// (a corrupt source's bytes are handed out except for the final portion: C09's subject)
+	if !strings.HasSuffix(c.toks[0], ".c") && (len(p.written) > len(c.content) || string(p.written) != string(c.content[:len(p.written)])) {
+		add(whatProgData, fmt.Sprintf("%v wrote %x, blob is %x", c.method, p.written, c.content))
+	}
+	if c.peersShouldSucceed() {
+		for i, s := range p.sibs {
+			if s.policy == "r" && s.done.Load() && s.err != nil {
+				add(whatPeer, fmt.Sprintf("clone %d: ToByteSlice failed with %v although blob and tasks are fine", i, s.err))
+			}
+		}
 	}
 	if p.dataOK && string(p.data) != string(c.expected(p)) {
 		add(whatProgData, fmt.Sprintf("%v returned %x, expected %x", c.method, p.data, c.expected(p)))
@@ -273,7 +299,15 @@ func (e *env) prepareProg(name string, script []string) *queued {
 			}
 			return bad("")
 		}
-		if len(f) != 7 || strings.Join(f[:3], " ")+" "+f[5] != impl {
+		if len(f) != 7 {
+			return bad("")
+		}
+		want := strings.Join(f[:3], " ") + " " + f[5]
+		if c.method[0] == "iwf" && p.res == fmt.Sprintf("err:%d", writerErrCode) {
+			// the writer failed: the model's result is the one for a surviving writer
+			want = "res=" + p.res + " " + f[1] + " " + f[2] + " " + f[5]
+		}
+		if want != impl {
 			return bad("")
 		}
 		for _, id := range parseIDs(strings.TrimPrefix(f[4], "waited=")) {
